@@ -178,6 +178,14 @@ func GenerateLayouts(t *rapid.T, use func(string) bool) *Program {
 	}
 	dump("init")
 	nops := g.intRange(3, 8, "nops")
+	// every step dumps every leaf: keep main at a size the back end compiles in a few seconds
+	nleaves := 0
+	for _, v := range vars {
+		nleaves += len(leaves(&Var{T: v.t, Name: v.name}, v.t))
+	}
+	for nops > 2 && nleaves*(nops+1) > 500 {
+		nops--
+	}
 	for k := 0; k < nops; k++ {
 		tag := fmt.Sprintf("op%d", k)
 		opk := g.intRange(0, 12, tag)
